@@ -95,7 +95,12 @@ def oracle_c01(cfgl, lines):
     # an update the admission filter rejects deletes the older disk copy (store.enqueue): without the tombstone log that
     # delete is as volatile as an explicit one ("either the tombstone log or RecoverMode::None must be enabled ...")
     adm = cfg.get("admit", "all")
+    limit = int(cfg.get("block", 65536)) - int(cfg.get("index", 4096))
     def rejected(k, size):
+        # an entry that no block can hold is dropped by the flusher, which deletes the older disk copy: like a rejected
+        # update, it is an implicit delete (and as volatile as one without the tombstone log)
+        if max(16, size) + 52 > limit:
+            return True
         if adm == "all":
             return False
         if adm in ("none", "throttle"):
@@ -104,6 +109,7 @@ def oracle_c01(cfgl, lines):
             return size + 8 >= int(adm[5:]) - 64      # estimated size, with a margin for the bound itself
         return k not in set(map(int, adm.split(",")))
     implicit_removed = set()
+    cleared = set()
     held = False
     for n, l in enumerate(lines):
         name, kv, r, nw, ew, wl = parse(l)
@@ -117,7 +123,7 @@ def oracle_c01(cfgl, lines):
             return (n, f"{name}: {r}")
         if name in ("ins", "sins"):
             k, v = int(kv["k"]), int(kv["ver"])
-            truth[k] = v; ever.setdefault(k, set()).add(v)
+            truth[k] = v; ever.setdefault(k, set()).add(v); cleared.discard(k)
             # (the storage writer's force() skips only the writer's own check: the entry still passes store.enqueue's filter)
             if rejected(k, int(kv.get("size", 64))):
                 implicit_removed.add(k)
@@ -126,11 +132,14 @@ def oracle_c01(cfgl, lines):
         elif name == "rm":
             truth[int(kv["k"])] = None
         elif name == "clear":
+            # clear() wipes the disk tier physically (index cleared, every block cleaned): unlike a delete it does not
+            # depend on the tombstone log, and nothing from before it can come back
             for k in list(truth):
                 truth[k] = None
+            cleared = set(truth); restarted_removed = set(); implicit_removed = set()
         elif name == "reopen":
             if not tomb:
-                restarted_removed |= {k for k, v in truth.items() if v is None} | implicit_removed
+                restarted_removed |= {k for k, v in truth.items() if v is None and k not in cleared} | implicit_removed
         elif name in ("get", "gof"):
             k = int(kv["k"])
             res = lookup_result(r)
@@ -140,7 +149,7 @@ def oracle_c01(cfgl, lines):
                 continue
             key, ver, ln, corrupt, src, fetched = res
             if name == "gof" and fetched:
-                truth[k] = int(kv["ver"]); ever.setdefault(k, set()).add(int(kv["ver"]))
+                truth[k] = int(kv["ver"]); ever.setdefault(k, set()).add(int(kv["ver"])); cleared.discard(k)
                 if rejected(k, int(kv.get("size", 64))):
                     implicit_removed.add(k)
                 else:
